@@ -271,6 +271,85 @@ def observe_reserved_keywords(netref, consts):
     return reserved
 
 
+def observe_local_attrs(netref, consts):
+    """what reading / writing / deleting each name of LOCAL_ATTRS on a proxy does, observed on three real proxies against the
+    recorder: a bare BaseNetref, an instance of a `class_factory` class of an importable class and one of a class that
+    cannot be imported here.
+
+    get: `local` (answered by the netref object, nothing sent), `raises` (AttributeError, nothing sent), `remote`
+    (HANDLE_GETATTR of that name even when the netref's class holds the name), `local-then-remote` (HANDLE_GETATTR of that
+    name because the netref object does not hold it; a subclass that holds it answers itself), `local-unless-class-unknown`
+    (sent only by the proxy of the class that cannot be imported: the `__class__` descriptor);
+    set / del: `local` (nothing sent, whatever `object.__setattr__/__delattr__` says) or `remote`"""
+    getattr_id = consts.HANDLE_GETATTR
+    classes = [("base", netref.BaseNetref),
+               ("importable", netref.class_factory(("collections.OrderedDict", 1001, 7007), [("observed_method", "doc")])),
+               ("unknown", netref.class_factory(("observed_nowhere.Class", 1002, 7008), [("observed_method", "doc")]))]
+
+    def run(cls, what, name):
+        rec = Recorder()
+        proxy = cls(rec, ("observed.Class", 1001, 7007))
+        rec.calls[:] = []
+        try:
+            if what == "get":
+                getattr(proxy, name)
+            elif what == "set":
+                setattr(proxy, name, Sentinel("v"))
+            else:
+                delattr(proxy, name)
+            res = "ok"
+        except AttributeError:
+            res = "AttributeError"
+        except Exception as ex:  # noqa
+            res = type(ex).__name__
+        calls = list(rec.calls)
+        try:
+            object.__setattr__(proxy, "____conn__", Recorder())
+        except Exception:  # noqa
+            pass
+        for kind, handler, args in calls:
+            if kind != "syncreq" or handler != {"get": getattr_id, "set": consts.HANDLE_SETATTR, "del": consts.HANDLE_DELATTR}[what] \
+                    or not args or args[0] is not proxy or args[1] != name:
+                raise Inexpressible("%s of the local name %r on a proxy sends %r" % (what, name, (kind, handler, args[1:])))
+        if len(calls) > 1:
+            raise Inexpressible("%s of the local name %r on a proxy sends %d requests" % (what, name, len(calls)))
+        return res, bool(calls)
+
+    rows = []
+    for name in sorted(netref.LOCAL_ATTRS):
+        got = dict((tag, run(cls, "get", name)) for tag, cls in classes)
+        sent = dict((tag, g[1]) for tag, g in got.items())
+        if not any(sent.values()):
+            if len(set(g[0] for g in got.values())) != 1:
+                raise Inexpressible("reading the local name %r differs between proxies: %r" % (name, got))
+            get = "raises" if got["base"][0] == "AttributeError" else "local" if got["base"][0] == "ok" else None
+            if get is None:
+                raise Inexpressible("reading the local name %r raises %s" % (name, got["base"][0]))
+        elif all(sent.values()):
+            try:
+                held = type("Held", (classes[1][1],), {"__slots__": (), name: 123})
+                still = run(held, "get", name)[1]
+            except Exception:  # noqa  (a class that cannot hold the name)
+                still = True
+            get = "remote" if still else "local-then-remote"
+        elif sent == dict(base=False, importable=False, unknown=True):
+            get = "local-unless-class-unknown"
+        else:
+            raise Inexpressible("reading the local name %r is forwarded by some proxies only: %r" % (name, sent))
+        cols = [get]
+        for what in ("set", "del"):
+            if name in ("____conn__", "____id_pack__"):
+                # (writing these would take the observed proxy apart: observed on the bare instance only)
+                outs = [run(netref.BaseNetref, what, name)]
+            else:
+                outs = [run(cls, what, name) for tag, cls in classes]
+            if len(set(o[1] for o in outs)) != 1:
+                raise Inexpressible("%s of the local name %r is forwarded by some proxies only" % (what, name))
+            cols.append("remote" if outs[0][1] else "local")
+        rows.append("(%s, %s, %s, %s)" % (lean_str(name), lean_str(cols[0]), lean_str(cols[1]), lean_str(cols[2])))
+    return rows
+
+
 def observe_buffiter(helpers, consts):
     names = handler_names(consts)
     rec = Recorder()
@@ -370,6 +449,12 @@ def gen_netref():
             raise Inexpressible("netref.%s is not a frozenset of str" % nm)
     L += ["def localAttrs : List String := " + lean_strs(sorted(netref.LOCAL_ATTRS)),
           "def deletedAttrs : List String := " + lean_strs(sorted(netref.DELETED_ATTRS)), ""]
+
+    L += ["/-- every name of `LOCAL_ATTRS`: what reading / writing / deleting it on a proxy does (observed on a bare netref and on",
+          "proxies of an importable and of an unknown class, against a recording connection).  get: `local` | `raises` | `remote`",
+          "(HANDLE_GETATTR although the netref's class holds the name) | `local-then-remote` (HANDLE_GETATTR because the netref",
+          "object does not hold the name) | `local-unless-class-unknown` (the `__class__` descriptor); set, del: `local` | `remote` -/",
+          "def localAttrBehaviour : List (String × String × String × String) := " + lean_list(observe_local_attrs(netref, consts), 2), ""]
 
     # -- BaseNetref's own methods: which request each issues (observed)
     methods, reqs = observe_base_methods(netref, consts)
